@@ -231,6 +231,16 @@ def handle (op : String) (args : List String) (impl : Impl) : Option Ans :=
       | .other w => "FAIL:" ++ w
       | _ => "FAIL:decode"
     pure { model := "-", spec := sp, branch := "accf_rel:" ++ name }
+  | "fmt_ptr", [_e] => do
+    -- C17: `{:p}` prints the UNIX seconds view: the numeral read back is the accessor's value (spec only; the accessor is
+    -- judged by accf), to 1e-9 s + 1e-15 relative, sign included
+    let sp := match impl with
+      | .ok [p, x] => (match parseF? p, parseF? x with
+          | some p, some x => verdict [("prints_the_unix_seconds", Float.abs (p - x) ≤ 1e-9 + Float.abs x * 1e-15)]
+          | _, _ => "FAIL:decode")
+      | .other w => "FAIL:" ++ w
+      | _ => "FAIL:decode"
+    pure { model := "-", spec := sp, branch := "fmt_ptr" }
   | "jdtext", [_form, _ts, x] => do
     -- C17 / C10: the text forms `MJD x SCALE`, `JD x SCALE` build the epoch the direct constructor builds from the same
     -- double, to within the resolution of a double of that magnitude (spec only; the constructor itself is judged by
